@@ -1,5 +1,6 @@
 import inspect
 import json
+import math
 from pathlib import Path
 from typing import Union
 
@@ -24,6 +25,17 @@ def _represent_str(dumper, data: str):
     """Represent strings with unicode line break characters as double-quoted scalars."""
     style = '"' if any(c in data for c in "\x85\u2028\u2029") else None
     return dumper.represent_scalar("tag:yaml.org,2002:str", data, style=style)
+
+
+def _has_non_finite(val) -> bool:
+    """Return whether a JSON-like value contains nan or inf (JSON cannot express these)."""
+    if isinstance(val, float):
+        return not math.isfinite(val)
+    if isinstance(val, dict):
+        return any(map(_has_non_finite, val.values()))
+    if isinstance(val, (list, tuple, set, frozenset)):
+        return any(map(_has_non_finite, val))
+    return False
 
 
 class BaseModelPlus(ParserMixin, BaseModel, metaclass=DynEncoderModelMetaclass):
@@ -72,7 +84,7 @@ class BaseModelPlus(ParserMixin, BaseModel, metaclass=DynEncoderModelMetaclass):
         if cls.__config__.extra is Extra.allow:
             known = set(cls.__fields__.keys())
             known.update(fld.alias for fld in cls.__fields__.values())
-            for key in values.keys():
+            for key, val in values.items():
                 if key in known or not isinstance(key, str):
                     continue
                 attr = inspect.getattr_static(cls, key, None)
@@ -84,6 +96,8 @@ class BaseModelPlus(ParserMixin, BaseModel, metaclass=DynEncoderModelMetaclass):
                     # would shadow e.g. the method used for serialization
                     msg = f"extra field '{key}' has the name of a model attribute"
                     raise ValueError(msg)
+                if _has_non_finite(val):  # like allow_inf_nan for proper fields
+                    raise ValueError(f"extra field '{key}' contains nan or inf")
         return values
 
     def dict(self, *args, **kwargs):
